@@ -74,6 +74,14 @@ fn same_profile(a: &Profile, b: &Profile, exact: bool) -> bool {
     (0..2).all(|pl| a[pl].len() == b[pl].len() && a[pl].iter().all(|(k, v)| b[pl].get(k).map(|w| v.len() == w.len() && v.iter().zip(w.iter()).all(|(x, y)| if exact { x == y } else { close(*x, *y, 1e-9) })).unwrap_or(false)))
 }
 
+/// two outputs of the program print the same object (the program's maps are unordered)
+fn same_output(a: &str, b: &str) -> bool {
+    match (parse_output(a), parse_output(b)) {
+        (Ok(x), Ok(y)) => x.strategies == y.strategies && x.regret.to_bits() == y.regret.to_bits() && x.utils.map(f64::to_bits) == y.utils.map(f64::to_bits) && x.regrets.map(f64::to_bits) == y.regrets.map(f64::to_bits),
+        _ => false,
+    }
+}
+
 pub struct Staged {
     pub file: GameFile,
     pub by_ext: String,
@@ -288,6 +296,70 @@ pub fn run(ctx: &Ctx) -> i32 {
             ctx.count("max_iters_zero_runs", 1);
         }
     });
+    // defaults: what the help text prints as [default: ...] must be what an omitted option means
+    {
+        use crate::tree::{p, t};
+        let solo = p(0, "x", vec![("a", p(0, "y", vec![("c", t(1.0)), ("d", t(-2.0))])), ("b", t(0.5))]);
+        let mut dstaged = Vec::new();
+        for (name, tree) in [("solo_decisions".to_string(), solo), ("matching_pennies".to_string(), matching_pennies()), ("kuhn".to_string(), kuhn())] {
+            if let Some(file) = json_file(&name, &tree) {
+                dstaged.push(stage(&dir, file, 1000 + dstaged.len()));
+            }
+        }
+        // (flag to omit, the value the help text gives as its default)
+        let explicit: Vec<(&str, &str)> = vec![("-d", "dcfr"), ("-t", "1000"), ("-r", "0"), ("-c", "0"), ("--input-format", "auto"), ("-o", "-")];
+        for st in &dstaged {
+            let full: Vec<String> = vec!["-i".into(), st.by_ext.clone(), "-m".into(), "full".into(), "-p".into(), "1".into()];
+            let mut reference = full.clone();
+            for (flag, val) in &explicit {
+                reference.extend([flag.to_string(), val.to_string()]);
+            }
+            let want = run_cli(&reference, None, 120);
+            for skip in 0..explicit.len() {
+                let mut args = full.clone();
+                for (i, (flag, val)) in explicit.iter().enumerate() {
+                    if i != skip {
+                        args.extend([flag.to_string(), val.to_string()]);
+                    }
+                }
+                let got = run_cli(&args, None, 120);
+                ctx.case(1, true);
+                ctx.count("default_value_runs", 1);
+                if got.code != Some(0) || !same_output(&got.stdout, &want.stdout) {
+                    ctx.violation("default-differs", &format!("omitting {} does not mean {} {}: `cfr {}` printed {:?}, with the explicit value {:?} on {}", explicit[skip].0, explicit[skip].0, explicit[skip].1, args[2..].join(" "), got.stdout.chars().take(200).collect::<String>(), want.stdout.chars().take(200).collect::<String>(), st.file.label), json!({"file": st.file.text, "format": "json", "model": st.file.model.to_replay(), "sum": 0.0, "label": st.file.label, "options": Options { method: "full", discount: 3, iters: 1000, max_reg: 0.0, parallel: 1, clip: 0.0, route: 0, to_file: false }.to_json()}));
+                }
+            }
+        }
+        // the default method is the external one: on a game with a single decision maker and no
+        // chance it is deterministic, so omitting -m must print what -m external prints, and that
+        // is the library's External solve
+        let st = &dstaged[0];
+        let base: Vec<String> = vec!["-i".into(), st.by_ext.clone(), "-p".into(), "1".into(), "-t".into(), "50".into()];
+        let mut with = base.clone();
+        with.extend(["-m".to_string(), "external".to_string()]);
+        let (a, b) = (run_cli(&base, None, 60), run_cli(&with, None, 60));
+        ctx.case(1, true);
+        if a.code != Some(0) || !same_output(&a.stdout, &b.stdout) {
+            ctx.violation("default-differs", &format!("omitting -m does not mean -m external on a draw-free game: {:?} vs {:?}", a.stdout.chars().take(200).collect::<String>(), b.stdout.chars().take(200).collect::<String>()), json!({"file": st.file.text, "format": "json", "model": st.file.model.to_replay(), "sum": 0.0, "label": st.file.label, "options": Options { method: "external", discount: 3, iters: 50, max_reg: 0.0, parallel: 1, clip: 0.0, route: 0, to_file: false }.to_json()}));
+        }
+        let opts = Options { method: "external", discount: 3, iters: 50, max_reg: 0.0, parallel: 1, clip: 0.0, route: 0, to_file: false };
+        check_run(ctx, st, &opts);
+        // -p 0 (the default: all cores) is a performance setting only
+        let mut auto = vec!["-i".to_string(), dstaged[2].by_ext.clone(), "-m".to_string(), "full".to_string(), "-t".to_string(), "20".to_string()];
+        let got = run_cli(&auto, None, 120);
+        auto.extend(["-p".to_string(), "1".to_string()]);
+        let want = run_cli(&auto, None, 120);
+        ctx.case(1, true);
+        match (parse_output(&got.stdout), parse_output(&want.stdout)) {
+            (Ok(x), Ok(y)) => {
+                let near = x.strategies.iter().zip(y.strategies.iter()).all(|(m, n)| m.len() == n.len() && m.iter().all(|(k, v)| n.get(k).map(|w| v.len() == w.len() && v.iter().all(|(a, pa)| w.get(a).map(|pb| close(*pa, *pb, 1e-9)).unwrap_or(false))).unwrap_or(false)));
+                if !near {
+                    ctx.violation("default-differs", "omitting -p (all cores) prints other strategies than -p 1 for the deterministic method on kuhn", json!({"file": dstaged[2].file.text, "format": "json", "model": dstaged[2].file.model.to_replay(), "sum": 0.0, "label": "kuhn", "options": Options { method: "full", discount: 3, iters: 20, max_reg: 0.0, parallel: 2, clip: 0.0, route: 0, to_file: false }.to_json()}));
+                }
+            }
+            _ => ctx.violation("run-failed", "a run with the default parallelism failed", json!({"label": "kuhn default parallelism"})),
+        }
+    }
     let _ = std::fs::remove_dir_all(&dir);
     ctx.assume("the external method is random on every game with an opponent decision, so only its option parsing and output validity are covered (C15); its semantics are C08 / C10");
     ctx.assume("the quick tier runs a rotating sixth of the option lattice per file (the full product in the thorough tier)");
